@@ -23,10 +23,12 @@ echo "== demo with patch (package $demopkg)" >> $log
 if run_demo $demopkg; then echo "SEED $name: demo PASSES with patch (bad seed)"; fi
 echo "== existing tests with patch: $pkgs" >> $log
 for p in $pkgs; do (go test -vet=off -count=1 ./$p/ >> $log 2>&1) || echo "SEED $name: existing tests of $p FAIL with patch (bad seed)"; done
-git stash -q
+# (not `git stash`: the stash stack is shared by all worktrees of a repository, so two evaluations running side
+# by side would pop each other's changes)
+git apply -R $out/patch.diff || { echo "SEED $name: cannot reverse the patch in the worktree"; exit 2; }
 echo "== demo without patch" >> $log
 run_demo $demopkg || echo "SEED $name: demo FAILS without patch (bad seed)"
-git stash pop -q
+git apply $out/patch.diff || { echo "SEED $name: cannot re-apply the patch in the worktree"; exit 2; }
 # now the check
 if [ "$SEED_MODE" = overlay ]; then
   # build the check with the changed files overlaid on /repo (leaves /repo untouched; the instrumenter reads
